@@ -299,11 +299,16 @@ func runWorldSeq(s *kernel.Sim, p profile) {
 						rep = append(rep, anyActor().ID)
 					}
 				}
-				d.lastNonce[a.ID] = time.Now().UnixNano()
+				sentAt := time.Now().UnixNano()
+				var uerr error
 				if d.choose("oldformat", 5) == 0 {
-					d.UpdateOld(a, rep, uint64(i))
+					_, uerr = d.UpdateOld(a, rep, uint64(i))
 				} else {
-					d.Update(a, rep, uint64(i))
+					_, uerr = d.Update(a, rep, uint64(i))
+				}
+				if uerr == nil {
+					// an accepted request carried a nonce >= sentAt: replaying sentAt later is a stale nonce
+					d.lastNonce[a.ID] = sentAt
 				}
 			case 3: // peer request
 				a := anyActor()
